@@ -63,7 +63,7 @@ var interpPkgs = map[string]bool{
 	"context": true, "net": true, "net/url": true, "bufio": true, "internal/stringslite": true,
 	"internal/itoa": true, "internal/byteorder": true, "cmp": true, "maps": true, "math": true,
 	"internal/bytealg": true, "internal/abi": true, "sync/atomic": true, "sync": true, "unsafe": true,
-	"crypto/subtle": true, "crypto/internal/alias": true, "path": true,
+	"crypto/subtle": true, "crypto/internal/alias": true, "path": true, "path/filepath": true, "internal/filepathlite": true,
 	"github.com/go-jose/go-jose/v4/jwt": true,
 	"github.com/m7913d/go-ntlm/ntlm":    true,
 	"net/textproto":                     true, "net/http/internal": true, "net/netip": true, "github.com/google/uuid": true, "github.com/go-jose/go-jose/v4": true, "math/big": true, "internal/godebug": false,
